@@ -85,6 +85,11 @@ class Amuset(probe.Contract):
                 c.skip('amuset_reduced_cut_on_a_singular_value')
                 continue
             K = np.linalg.pinv(Px.T, rcond=CUT) @ Py.T
+            if not np.all(np.isfinite(K)) or float(np.linalg.norm(K, 2)) < 1e-6:
+                # (numerically) zero EDMD matrix - e.g. the y-snapshots sit on common zeros of the basis functions: every
+                # eigenvalue is a rounding-level number and relative statements about them are void
+                c.skip('amuset_edmd_matrix_numerically_zero')
+                continue
             w, V = np.linalg.eig(K)
             tags = ['batch' if batch else 'single', 'pair=%s' % ('first' if k == 0 else 'later')]
             lam = np.asarray(lams[k]).reshape(-1)
